@@ -25,6 +25,9 @@ template <class T> static inline Q qulp(Q m) { return (Q)fp::ulp_at<T>((long dou
 template <class T> static inline Q qdenorm() { return (Q)std::numeric_limits<T>::denorm_min(); }
 template <class T> static inline Q qeps() { return (Q)std::numeric_limits<T>::epsilon(); }
 
+// err/tol metrics are kept finite (the engine prints them into JSON)
+static inline void met(pbt::Ctx& c, const char* name, double v) { if (v == v) c.metric(name, v < 1e300 ? v : 1e300); }
+
 // VALUE comparison; counts a pure sign-of-zero difference
 template <class T> static inline bool veq(pbt::Ctx& c, T got, T want) {
 	if (!same_value(got, want)) return false;
@@ -212,7 +215,7 @@ template <class T> static void check_blend(pbt::Ctx& c) {
 	Q tol = 16 * qeps<T>() * scale + 8 * qdenorm<T>();
 	auto chk = [&](const char* fn, T got) {
 		Q err = qabs((Q)got - exact);
-		c.metric("mix err/tol", (double)(err / tol));
+		met(c, "mix err/tol", (double)(err / tol));
 		if (!(err <= tol)) FAILK(c, fn, T, acls, "%s(%a,%a,%a)=%a, x*(1-a)+y*a=%.20Lg (err/tol %.3g)", fn, (double)x, (double)y, (double)a, (double)got, (long double)exact, (double)(err / tol));
 	};
 	chk("mix", glm::mix(x, y, a));
@@ -227,7 +230,7 @@ template <class T> static void check_blend(pbt::Ctx& c) {
 		Q tl = 16 * eu * sc + 8 * qdenorm<float>();
 		T got = glm::mix(x, y, au);
 		Q err = qabs((Q)got - ex);
-		c.metric("mix(mixed-type) err/tol", (double)(err / tl));
+		met(c, "mix(mixed-type) err/tol", (double)(err / tl));
 		if (!(err <= tl)) FAILK(c, "mix-mixed-interpolant", T, acls, "mix(%a,%a,(other precision)%a)=%a, expected %.20Lg", (double)x, (double)y, (double)au, (double)got, (long double)ex);
 	}
 	// vec4 overloads, lanes (x,y) (y,x) (x,x) (-x,y); scalar and per-lane interpolant
@@ -236,7 +239,7 @@ template <class T> static void check_blend(pbt::Ctx& c) {
 	for (int i = 0; i < 4; ++i) {
 		Q e1 = (Q)vx[i] * ((Q)1 - (Q)a) + (Q)vy[i] * (Q)a, s1 = qabs((Q)vx[i] * ((Q)1 - (Q)a)) + qabs((Q)vy[i] * (Q)a), t1 = 16 * qeps<T>() * s1 + 8 * qdenorm<T>();
 		Q e2 = (Q)vx[i] * ((Q)1 - (Q)va[i]) + (Q)vy[i] * (Q)va[i], s2 = qabs((Q)vx[i] * ((Q)1 - (Q)va[i])) + qabs((Q)vy[i] * (Q)va[i]), t2 = 16 * qeps<T>() * s2 + 8 * qdenorm<T>();
-		c.metric("mix err/tol", (double)(qabs((Q)r1[i] - e1) / t1)); c.metric("mix err/tol", (double)(qabs((Q)r2[i] - e2) / t2));
+		met(c, "mix err/tol", (double)(qabs((Q)r1[i] - e1) / t1)); met(c, "mix err/tol", (double)(qabs((Q)r2[i] - e2) / t2));
 		if (!(qabs((Q)r1[i] - e1) <= t1)) FAILK(c, "mix/vec4-scalar", T, acls, "lane %d: mix(%a,%a,%a)=%a", i, (double)vx[i], (double)vy[i], (double)a, (double)r1[i]);
 		if (!(qabs((Q)r2[i] - e2) <= t2)) FAILK(c, "mix/vec4", T, "lane", "lane %d: mix(%a,%a,%a)=%a", i, (double)vx[i], (double)vy[i], (double)va[i], (double)r2[i]);
 		if (!(qabs((Q)r3[i] - e1) <= t1)) FAILK(c, "lerp/vec4-scalar", T, acls, "lane %d: lerp(%a,%a,%a)=%a", i, (double)vx[i], (double)vy[i], (double)a, (double)r3[i]);
@@ -248,12 +251,12 @@ template <class T> static void check_blend(pbt::Ctx& c) {
 		Q ex = (Q)p * (Q)q + (Q)r, tl = 8 * (qulp<T>((Q)p * (Q)q) + qulp<T>(ex)) + 8 * qdenorm<T>();
 		T g1 = glm::fma(p, q, r); V g2 = glm::fma(V(p, q, r, p), V(q, r, p, p), V(r, p, q, q));
 		Q err = qabs((Q)g1 - ex);
-		c.metric("fma err/tol", (double)(err / tl));
+		met(c, "fma err/tol", (double)(err / tl));
 		if (!(err <= tl)) FAILK(c, "fma", T, "moderate", "fma(%a,%a,%a)=%a, expected %.20Lg", (double)p, (double)q, (double)r, (double)g1, (long double)ex);
 		T pp[4] = {p, q, r, p}, qq[4] = {q, r, p, p}, rr[4] = {r, p, q, q};
 		for (int i = 0; i < 4; ++i) {
 			Q e = (Q)pp[i] * (Q)qq[i] + (Q)rr[i], t = 8 * (qulp<T>((Q)pp[i] * (Q)qq[i]) + qulp<T>(e)) + 8 * qdenorm<T>();
-			c.metric("fma err/tol", (double)(qabs((Q)g2[i] - e) / t));
+			met(c, "fma err/tol", (double)(qabs((Q)g2[i] - e) / t));
 			if (!(qabs((Q)g2[i] - e) <= t)) FAILK(c, "fma/vec4", T, "lane", "lane %d: fma(%a,%a,%a)=%a", i, (double)pp[i], (double)qq[i], (double)rr[i], (double)g2[i]);
 		}
 	}
@@ -292,7 +295,7 @@ template <class T> static void check_smoothstep(pbt::Ctx& c) {
 	Q tol, ex = ref(x, e0, e1, &tol);
 	T got = glm::smoothstep(e0, e1, x);
 	Q err = qabs((Q)got - ex);
-	if (tol > 0) c.metric("smoothstep err/tol", (double)(err / tol));
+	if (tol > 0) met(c, "smoothstep err/tol", (double)(err / tol));
 	if (!(err <= tol)) FAILK(c, "smoothstep", T, k, "smoothstep(%a,%a,%a)=%a, expected %.20Lg", (double)e0, (double)e1, (double)x, (double)got, (long double)ex);
 	// vec4: scalar edges / vector edges; lanes x, e0, e1, midpoint
 	T xm = (T)(((long double)e0 + (long double)e1) * 0.5L);
@@ -302,7 +305,7 @@ template <class T> static void check_smoothstep(pbt::Ctx& c) {
 		Q t1, x1 = ref(vx[i], e0, e1, &t1), t2, x2 = ref(vx[i], i == 3 ? e0 - T(1) : e0, i == 3 ? e1 + T(1) : e1, &t2);
 		if (!(qabs((Q)r1[i] - x1) <= t1)) FAILK(c, "smoothstep/vec4-scalar-edges", T, "lane", "lane %d: smoothstep(%a,%a,%a)=%a, expected %.20Lg", i, (double)e0, (double)e1, (double)vx[i], (double)r1[i], (long double)x1);
 		if (!(qabs((Q)r2[i] - x2) <= t2)) FAILK(c, "smoothstep/vec4", T, "lane", "lane %d: smoothstep(..,%a)=%a, expected %.20Lg", i, (double)vx[i], (double)r2[i], (long double)x2);
-		if (t1 > 0) c.metric("smoothstep err/tol", (double)(qabs((Q)r1[i] - x1) / t1));
+		if (t1 > 0) met(c, "smoothstep err/tol", (double)(qabs((Q)r1[i] - x1) / t1));
 	}
 }
 
@@ -354,7 +357,7 @@ template <class T> static void check_mod(pbt::Ctx& c) {
 		if (!refc::is_zero(n)) c.nontrivial();
 		T got = glm::mod(x, y);
 		Q err = qabs((Q)got - ex);
-		c.metric("mod err/tol", (double)(err / tol));
+		met(c, "mod err/tol", (double)(err / tol));
 		if (!(err <= tol)) FAILK(c, "mod", T, k, "mod(%a,%a)=%a, x-y*floor(x/y)=%.20Lg with floor(x/y)=%a (err/tol %.3g)", (double)x, (double)y, (double)got, (long double)ex, (double)n, (double)(err / tol));
 	}
 	V g = glm::mod(V(x, -x, x, -x), V(y, y, -y, -y)), gs = glm::mod(V(x, -x, y, x), y);
@@ -363,7 +366,7 @@ template <class T> static void check_mod(pbt::Ctx& c) {
 		Q t1, t2; bool o1, o2; Q e1 = modref(xs[i], ys[i], &t1, &o1), e2 = modref(zs[i], y, &t2, &o2);
 		if (o1 && !(qabs((Q)g[i] - e1) <= t1)) FAILK(c, "mod/vec4", T, "lane", "lane %d: mod(%a,%a)=%a, expected %.20Lg", i, (double)xs[i], (double)ys[i], (double)g[i], (long double)e1);
 		if (o2 && !(qabs((Q)gs[i] - e2) <= t2)) FAILK(c, "mod/vec4-scalar", T, "lane", "lane %d: mod(%a,%a)=%a, expected %.20Lg", i, (double)zs[i], (double)y, (double)gs[i], (long double)e2);
-		if (o1) c.metric("mod err/tol", (double)(qabs((Q)g[i] - e1) / t1));
+		if (o1) met(c, "mod err/tol", (double)(qabs((Q)g[i] - e1) / t1));
 	}
 }
 
